@@ -95,6 +95,10 @@ TT(t) == [k \in 1..Pow2(Len(GeneSeq)) |-> IF Eval(t, SubsetK(k)) THEN 1 ELSE 0]
 
 \* ------------------------------------------------------------------ content
 ZeroS == [r \in RxU |-> [m \in MetU |-> 0]]
+\* compartments: metabolites are created in "c" (token 1; m1, m2) or "e" (token 2; the external m3, m4); an internal
+\* metabolite can be moved to "p" (token 3).  0 = not a metabolite.
+DefComp(x) == IF x \in {"m1", "m2"} THEN 1 ELSE IF x \in {"m3", "m4"} THEN 2 ELSE 0
+DefAttr(x) == [name |-> 0, formula |-> 0, charge |-> 99, subsys |-> 0, comp |-> DefComp(x)]
 EmptyContent(solver) ==
   [rxns |-> {}, mets |-> {}, genes |-> {}, groups |-> {},
    S |-> ZeroS, lb |-> [r \in RxU |-> 0], ub |-> [r \in RxU |-> 0],
@@ -104,14 +108,14 @@ EmptyContent(solver) ==
    ann |-> [x \in AllIds |-> 0], note |-> [x \in AllIds |-> 0],
    \* plain attributes as tokens: name (all objects), formula and charge (metabolites; charge 99 = None),
    \* subsystem (reactions); 0 = the default the driver creates objects with
-   attr |-> [x \in AllIds |-> [name |-> 0, formula |-> 0, charge |-> 99, subsys |-> 0]],
+   attr |-> [x \in AllIds |-> DefAttr(x)],
    xcols |-> {}, xrows |-> {}, solver |-> solver,
    tol |-> 7]          \* model.tolerance = 10^-tol (Configuration().tolerance = 1e-7)
 NoModel == [none |-> TRUE]
 \* an expected attribute value the specification does not determine (not compared with the observation)
 Wild == -77
 NoDet == [present |-> FALSE, st |-> [m \in {} |-> 0], lb |-> 0, ub |-> 0, rule |-> [k |-> "none", id |-> "", ch |-> <<>>],
-          sbo |-> "none", ann |-> 0, note |-> 0, attr |-> [name |-> 0, formula |-> 0, charge |-> 99, subsys |-> 0]]
+          sbo |-> "none", ann |-> 0, note |-> 0, attr |-> DefAttr("r1")]
 IsModel(c) == "rxns" \in DOMAIN c
 
 MetsOfRxn(C, r) == {m \in MetU : C.S[r][m] # 0}
@@ -147,7 +151,7 @@ Canon(C) ==
                                        ELSE {}],
             !.xrows = C.xrows \ C.mets,
             !.attr = [x \in AllIds |-> IF x \in (C.rxns \cup C.mets \cup C.genes \cup {"MODEL"}) THEN C.attr[x]
-                                       ELSE [name |-> 0, formula |-> 0, charge |-> 99, subsys |-> 0]],
+                                       ELSE DefAttr(x)],
             !.ann = [x \in AllIds |-> IF x \in (C.rxns \cup C.mets \cup C.genes \cup {"MODEL"}) THEN C.ann[x] ELSE 0],
             !.note = [x \in AllIds |-> IF x \in (C.rxns \cup C.mets \cup C.genes \cup {"MODEL"}) THEN C.note[x] ELSE 0]]
 
@@ -346,7 +350,7 @@ A_RenameReaction(C, r, new) ==
                     !.ub = SwapKey(C.ub, r, new, 0), !.rule = SwapKey(C.rule, r, new, RuleNone),
                     !.objc = SwapKey(C.objc, r, new, 0), !.sbo = SwapKey(C.sbo, r, new, "none"),
                     !.ann = SwapKey(C.ann, r, new, 0), !.note = SwapKey(C.note, r, new, 0),
-                    !.attr = SwapKey(C.attr, r, new, [name |-> 0, formula |-> 0, charge |-> 99, subsys |-> 0]),
+                    !.attr = SwapKey(C.attr, r, new, DefAttr(r)),
                     !.member = [g \in GrpU |-> IF r \in C.member[g] THEN (C.member[g] \ {r}) \cup {new} ELSE C.member[g]]])
 A_RenameMetabolite(C, m, new) ==     \* (compartments are tied to the ids in this model of the universe)
   IF m \notin C.mets \/ m = new \/ CompOf(m) # CompOf(new) THEN FailLoose(C, "skip")
@@ -354,7 +358,7 @@ A_RenameMetabolite(C, m, new) ==     \* (compartments are tied to the ids in thi
   ELSE Ok([C EXCEPT !.mets = (@ \ {m}) \cup {new},
                     !.S = [r \in RxU |-> SwapKey(C.S[r], m, new, 0)],
                     !.ann = SwapKey(C.ann, m, new, 0), !.note = SwapKey(C.note, m, new, 0),
-                    !.attr = SwapKey(C.attr, m, new, [name |-> 0, formula |-> 0, charge |-> 99, subsys |-> 0]),
+                    !.attr = SwapKey(C.attr, m, new, DefAttr(m)),
                     !.member = [g \in GrpU |-> IF m \in C.member[g] THEN (C.member[g] \ {m}) \cup {new} ELSE C.member[g]]])
 
 \* objective
@@ -416,6 +420,7 @@ A_SetAttr(C, x, field, v) ==
   IF x \notin (C.rxns \cup C.mets \cup C.genes) THEN FailLoose(C, "skip")
   ELSE IF field \in {"formula", "charge"} /\ x \notin C.mets THEN FailLoose(C, "skip")
   ELSE IF field = "subsys" /\ x \notin C.rxns THEN FailLoose(C, "skip")
+  ELSE IF field = "comp" /\ (x \notin {"m1", "m2"} \/ x \notin C.mets \/ v \notin {1, 3}) THEN FailLoose(C, "skip")
   ELSE Ok([C EXCEPT !.attr[x] = [@ EXCEPT ![field] = v]])
 A_Annotate(C, x, v, via) ==     \* via 0: annotation[k] = v; 1: annotation = {...}; 2: notes[k] = v as well
   IF x \notin (C.rxns \cup C.mets \cup C.genes \cup {"MODEL"}) THEN FailLoose(C, "skip")
@@ -637,7 +642,7 @@ Apply(op, St) ==
                 \* metabolites that come back with it are the objects the detached reaction holds, with whatever
                 \* attributes they had when they left the model: not determined here
                 back == C1.mets \ St.m[s].mets
-                wa == [name |-> Wild, formula |-> Wild, charge |-> Wild, subsys |-> Wild] IN
+                wa == [name |-> Wild, formula |-> Wild, charge |-> Wild, subsys |-> Wild, comp |-> Wild] IN
             Lift(St, s, Ok([C1 EXCEPT !.sbo[op.r] = d.sbo,
                                       !.ann = [x \in AllIds |-> IF x = op.r THEN d.ann ELSE IF x \in back THEN Wild ELSE @[x]],
                                       !.note = [x \in AllIds |-> IF x = op.r THEN d.note ELSE IF x \in back THEN Wild ELSE @[x]],
